@@ -16,7 +16,8 @@ static CC_Array *A[NSLOT];
 static CC_ArrayIter it;       static int it_slot = -1;
 static CC_ArrayZipIter zit;   static int z1 = -1, z2 = -1;
 
-static void shim_reset(void) { for (int i = 0; i < NSLOT; i++) A[i] = NULL; it_slot = z1 = z2 = -1; }
+static int sess_default;   /* the session object was built by cc_array_new (C library allocator triple) */
+static void shim_reset(void) { for (int i = 0; i < NSLOT; i++) A[i] = NULL; it_slot = z1 = z2 = -1; sess_default = 0; }
 
 /* fixed callbacks */
 static bool  pred_even(const void *e) { cb_record((void *)e); return VAL(e) % 2 == 0; }
@@ -75,7 +76,8 @@ static void phys(void) {
         if (block_size(a->buffer) < a->capacity * sizeof(void *)) o(" WALK=buf-block-too-small");
         if (a->size > a->capacity) o(" WALK=size-gt-capacity");
         if (block_size(a) != sizeof(CC_Array)) o(" WALK=struct-block");
-        if (!default_mode && (a->mem_alloc != conf_malloc || a->mem_calloc != conf_calloc || a->mem_free != conf_free))
+        if (sess_default ? (a->mem_alloc != malloc || a->mem_calloc != calloc || a->mem_free != free)
+                         : (a->mem_alloc != conf_malloc || a->mem_calloc != conf_calloc || a->mem_free != conf_free))
             o(" WALK=allocators-not-inherited");
     }
     if (!any) { o("-"); return; }
@@ -104,7 +106,7 @@ static void do_op(Cmd *c) {
             if (e) conf.exp_factor = strtof(e, NULL);
             conf.mem_alloc = conf_malloc; conf.mem_calloc = conf_calloc; conf.mem_free = conf_free;
             st = cc_array_new_conf(&conf, &A[0]);
-        } else { default_mode = 1; st = cc_array_new(&A[0]); }
+        } else { st = cc_array_new(&A[0]); sess_default = 1; }
         if (st != CC_OK) A[0] = NULL;
         o_stat(st);
         obs_all(); o_sep(); phys(); return;
@@ -176,8 +178,7 @@ static void do_op(Cmd *c) {
         size_t before = L_libc.frees;
         cc_array_remove_all_free(a);
         o("st=- freed=%zu", L_libc.frees - before);
-        if (!default_mode) L_libc.allocs = L_libc.frees = 0;
-        else { L_libc.allocs = 0; L_libc.frees = 0; }
+        L_libc.allocs = L_libc.frees = 0;
     } else if (is_op(c, "reverse")) { cc_array_reverse(a); o("st=-");
     } else if (is_op(c, "filter_mut")) { enum cc_stat st = cc_array_filter_mut(a, pred_even); o_stat(st); o(" "); o_cb();
     } else if (is_op(c, "trim_capacity")) { o_stat(cc_array_trim_capacity(a));
